@@ -604,7 +604,10 @@ mod matching {
         EM: EdgeMatcher<G0, G1>,
     {
         if st.0.is_complete() {
-            return Some(st.0.mapping.clone());
+            // Only an empty `g0` is complete before the search has started. It has exactly
+            // one mapping (the empty one): consume the initial frame so that it is reported
+            // once, not on every call.
+            return stack.pop().map(|_| st.0.mapping.clone());
         }
 
         // A "depth first" search of a valid mapping from graph 1 to graph 2
